@@ -1502,5 +1502,267 @@ theorem facts_trans {A A1 A2 : List (K × V)} {D1 D2 P1 P2 T1 T2 : List K}
 
 end Facts
 
+theorem curSet_none (d : Db K V) (p : CPos) (v : V) (h : curRec d p = none) : curSet d p v = d := by
+  cases p with
+  | head => rfl
+  | tail => rfl
+  | void => rfl
+  | «at» i j s =>
+    simp only [curRec] at h
+    simp only [curSet]
+    cases hn : d.nodes[i]? with
+    | none => rfl
+    | some n =>
+      rw [hn] at h
+      simp only [Option.bind_some] at h
+      simp only [h]
+
+theorem curDel_none (d : Db K V) (p : CPos) (h : curRec d p = none) : curDel d p = d := by
+  cases p with
+  | head => rfl
+  | tail => rfl
+  | void => rfl
+  | «at» i j s => simp [curDel, h]
+
+theorem curPos_setCur_ne (d : Db K V) {c c' : Nat} (q : CPos) (h : c' ≠ c) : curPos (setCur d c' q) c = curPos d c := by
+  simp only [curPos, setCur, List.find?_cons]
+  have : (decide ((c', q).1 = c)) = false := by simp [h]
+  rw [this]
+  simp only [List.find?_filter]
+  congr 2
+  funext x
+  by_cases hx : x.1 = c
+  · simp [hx]
+    exact fun e => h (e ▸ rfl)
+  · simp [hx]
+
+theorem curPos_of_curs {d d' : Db K V} (h : d'.curs = d.curs) (c : Nat) : curPos d' c = curPos d c := by
+  simp only [curPos, h]
+
+theorem mem_flat_of_ahead {ns : List (Node K V)} {p : CPos} {r : K × V} :
+    (r ∈ aheadN ns p → r ∈ flatten ns) ∧ (r ∈ aheadP ns p → r ∈ flatten ns) :=
+  ⟨fun h => (aheadN_sublist ns p).subset h, fun h => (aheadP_sublist ns p).subset h⟩
+
+section Hist
+variable [DecidableEq K]
+
+omit [DecidableEq K] in
+/-- the chain invariant survives every step -/
+theorem stepMut_inv (st : StrictTotal gt) (d : Db K V) (inv : NodeInv gt d.nodes) (m : Mut K V) :
+    NodeInv gt (stepMut gt d m).nodes := by
+  cases m with
+  | put k v lvl => exact (step_refines st d inv (.put k v lvl)).2.2
+  | del k => exact (step_refines st d inv (.del k)).2.2
+  | cset c v =>
+    simp only [stepMut]
+    cases hc : curPos d c with
+    | none => exact inv
+    | some p0 =>
+      cases hr : curRec d p0 with
+      | none => simp only [curSet_none d p0 v hr]; exact inv
+      | some r =>
+        obtain ⟨k, ov⟩ := r
+        have h := curSet_core st d inv p0 v hr
+        exact ⟨h.2, by rw [h.1]; exact desc_specPut st inv.2 k v⟩
+  | cdel c =>
+    simp only [stepMut]
+    cases hc : curPos d c with
+    | none => exact inv
+    | some p0 =>
+      cases hr : curRec d p0 with
+      | none => simp only [curDel_none d p0 hr]; exact inv
+      | some r =>
+        obtain ⟨k, ov⟩ := r
+        have h := curDel_core st d inv p0 hr
+        exact ⟨h.2, by rw [h.1]; exact desc_specDel st inv.2 k⟩
+  | move c q => exact inv
+
+/-- one step of a history, seen from a cursor the step does not reposition -/
+theorem step_tracks (st : StrictTotal gt) (d : Db K V) (inv : NodeInv gt d.nodes) (m : Mut K V) (c : Nat) (p : CPos)
+    (hc : curPos d c = some p) (hp : CurOk d.nodes p) (hmv : ∀ q, m ≠ .move c q) :
+    ∃ p1, curPos (stepMut gt d m) c = some p1 ∧ CurOk (stepMut gt d m).nodes p1 ∧
+      StepFacts (aheadN d.nodes p) (aheadN (stepMut gt d m).nodes p1) (mutDel d m) (mutPut m) (mutTouch d m) ∧
+      StepFacts (aheadP d.nodes p) (aheadP (stepMut gt d m).nodes p1) (mutDel d m) (mutPut m) (mutTouch d m) := by
+  have hnop : ∀ d1 : Db K V, d1.nodes = d.nodes → curPos d1 c = curPos d c →
+      ∃ p1, curPos d1 c = some p1 ∧ CurOk d1.nodes p1 ∧
+        StepFacts (aheadN d.nodes p) (aheadN d1.nodes p1) [] [] [] ∧
+        StepFacts (aheadP d.nodes p) (aheadP d1.nodes p1) [] [] [] := by
+    intro d1 h1 h2
+    exact ⟨p, by rw [h2, hc], by rw [h1]; exact hp, by rw [h1]; exact facts_nop _, by rw [h1]; exact facts_nop _⟩
+  cases m with
+  | put k v lvl =>
+    simp only [stepMut, mutDel, mutPut, mutTouch]
+    by_cases hk : ∀ r ∈ flatten d.nodes, r.1 ≠ k
+    · obtain ⟨fix, hv, hrel⟩ := put_new_cursors st d k v false lvl hk
+      obtain ⟨h1, h2, h3⟩ := hrel p hp
+      refine ⟨fix p, by rw [cursVia_curPos hv, hc]; rfl, h1, ?_, ?_⟩
+      · exact facts_ins h2 (fun r hr => hk r (mem_flat_of_ahead.1 hr))
+      · exact facts_ins h3 (fun r hr => hk r (mem_flat_of_ahead.2 hr))
+    · have : ∃ av, (k, av) ∈ flatten d.nodes := by
+        apply Classical.byContradiction
+        intro hne
+        apply hk
+        intro r hr e
+        exact hne ⟨r.2, by rw [← e]; exact hr⟩
+      obtain ⟨av, hm⟩ := this
+      obtain ⟨h0, hrel⟩ := put_overwrite_cursors st d inv k v lvl hm
+      obtain ⟨h1, h2, h3⟩ := hrel p hp
+      refine ⟨p, by rw [curPos_of_curs h0, hc], h1, ?_, ?_⟩
+      · rw [h2]; exact facts_upd _ k v [k]
+      · rw [h3]; exact facts_upd _ k v [k]
+  | del k =>
+    simp only [stepMut, mutDel, mutPut, mutTouch]
+    obtain ⟨fix, hv, hrel⟩ := del_cursors st d inv k
+    obtain ⟨h1, h2, h3⟩ := hrel p hp
+    refine ⟨fix p, by rw [cursVia_curPos hv, hc]; rfl, h1, ?_, ?_⟩
+    · rw [h2]; exact facts_del _ k
+    · rw [h3]; exact facts_del _ k
+  | cset c' v =>
+    simp only [stepMut, mutDel, mutPut, mutTouch, keyAt, recAt]
+    cases hc' : curPos d c' with
+    | none => simpa using hnop d rfl rfl
+    | some p0 =>
+      cases hr : curRec d p0 with
+      | none => simp only [Option.bind_some, hr, curSet_none d p0 v hr]; exact hnop d rfl rfl
+      | some r =>
+        obtain ⟨k, ov⟩ := r
+        simp only [Option.bind_some, hr]
+        obtain ⟨h0, hrel⟩ := curSet_cursors st d inv p0 v hr
+        obtain ⟨h1, h2, h3⟩ := hrel p hp
+        refine ⟨p, by rw [curPos_of_curs h0, hc], h1, ?_, ?_⟩
+        · rw [h2]; exact facts_upd _ k v []
+        · rw [h3]; exact facts_upd _ k v []
+  | cdel c' =>
+    simp only [stepMut, mutDel, mutPut, mutTouch, keyAt, recAt]
+    cases hc' : curPos d c' with
+    | none => simpa using hnop d rfl rfl
+    | some p0 =>
+      cases hr : curRec d p0 with
+      | none => simp only [Option.bind_some, hr, curDel_none d p0 hr]; exact hnop d rfl rfl
+      | some r =>
+        obtain ⟨k, ov⟩ := r
+        simp only [Option.bind_some, hr]
+        obtain ⟨fix, hv, hrel⟩ := curDel_cursors st d inv p0 hr
+        obtain ⟨h1, h2, h3⟩ := hrel p hp
+        refine ⟨fix p, by rw [cursVia_curPos hv, hc]; rfl, h1, ?_, ?_⟩
+        · rw [h2]; exact facts_del _ k
+        · rw [h3]; exact facts_del _ k
+  | move c' q =>
+    simp only [stepMut, mutDel, mutPut, mutTouch]
+    have hne : c' ≠ c := fun e => hmv q (by rw [e])
+    exact hnop (setCur d c' q) rfl (curPos_setCur_ne d q hne)
+
+/-- a whole history, seen from a cursor it does not reposition -/
+theorem run_tracks (st : StrictTotal gt) (c : Nat) (ms : List (Mut K V)) :
+    ∀ (d : Db K V) (p : CPos), NodeInv gt d.nodes → curPos d c = some p → CurOk d.nodes p →
+      (∀ m ∈ ms, ∀ q, m ≠ .move c q) →
+      NodeInv gt (runMut gt d ms).nodes ∧
+      ∃ p', curPos (runMut gt d ms) c = some p' ∧ CurOk (runMut gt d ms).nodes p' ∧
+        StepFacts (aheadN d.nodes p) (aheadN (runMut gt d ms).nodes p') (runDel gt d ms) (runPut ms) (runTouch gt d ms) ∧
+        StepFacts (aheadP d.nodes p) (aheadP (runMut gt d ms).nodes p') (runDel gt d ms) (runPut ms) (runTouch gt d ms) := by
+  induction ms with
+  | nil =>
+    intro d p inv hc hp _
+    exact ⟨inv, p, hc, hp, facts_nop _, facts_nop _⟩
+  | cons m ms ih =>
+    intro d p inv hc hp hmv
+    obtain ⟨p1, hc1, hp1, hN1, hP1⟩ := step_tracks st d inv m c p hc hp (hmv m (List.mem_cons_self ..))
+    obtain ⟨inv', p', hc', hp', hN, hP⟩ := ih (stepMut gt d m) p1 (stepMut_inv st d inv m) hc1 hp1
+      (fun m' hm' => hmv m' (List.mem_cons_of_mem _ hm'))
+    exact ⟨inv', p', hc', hp', facts_trans hN1 hN, facts_trans hP1 hP⟩
+
+/-! #### removed keys stay away until they are put again -/
+
+omit [DecidableEq K] in
+/-- keys after a step: an old key the step did not remove, or a key the step put -/
+theorem step_keys (st : StrictTotal gt) (d : Db K V) (inv : NodeInv gt d.nodes) (m : Mut K V) :
+    ∀ r ∈ flatten (stepMut gt d m).nodes,
+      ((∃ r0 ∈ flatten d.nodes, r0.1 = r.1) ∧ r.1 ∉ mutDel d m) ∨ r.1 ∈ mutPut m := by
+  have hnop : ∀ r ∈ flatten d.nodes, ((∃ r0 ∈ flatten d.nodes, r0.1 = r.1) ∧ r.1 ∉ ([] : List K)) ∨ r.1 ∈ ([] : List K) :=
+    fun r hr => Or.inl ⟨⟨r, hr, rfl⟩, by simp⟩
+  cases m with
+  | put k v lvl =>
+    intro r hr
+    simp only [stepMut, mutDel, mutPut] at hr ⊢
+    rw [(put_core st d inv k v lvl _ rfl).1, mem_specPut st inv.2] at hr
+    rcases hr with rfl | ⟨h1, h2⟩
+    · exact Or.inr (by simp)
+    · exact Or.inl ⟨⟨r, h1, rfl⟩, by simp⟩
+  | del k =>
+    intro r hr
+    simp only [stepMut, mutDel, mutPut] at hr ⊢
+    rw [(del_core st d inv k).1, mem_specDel st inv.2] at hr
+    exact Or.inl ⟨⟨r, hr.1, rfl⟩, by simpa using hr.2⟩
+  | cset c v =>
+    simp only [stepMut, mutDel, mutPut]
+    cases hc : curPos d c with
+    | none => exact hnop
+    | some p0 =>
+      cases hr : curRec d p0 with
+      | none => simp only [curSet_none d p0 v hr]; exact hnop
+      | some x =>
+        obtain ⟨k, ov⟩ := x
+        intro r hr'
+        simp only at hr'
+        rw [(curSet_core st d inv p0 v hr).1, mem_specPut st inv.2] at hr'
+        obtain ⟨i, j, s, pre, lower, post, t, u, rfl, e, hl, e2, hl2⟩ := curRec_split hr
+        have hm : (k, ov) ∈ flatten d.nodes := by
+          rw [e, flatten_append, flatten_cons, e2]; simp
+        rcases hr' with rfl | ⟨h1, h2⟩
+        · exact Or.inl ⟨⟨(k, ov), hm, rfl⟩, by simp⟩
+        · exact Or.inl ⟨⟨r, h1, rfl⟩, by simp⟩
+  | cdel c =>
+    simp only [stepMut, mutDel, mutPut, keyAt, recAt]
+    cases hc : curPos d c with
+    | none => simpa using hnop
+    | some p0 =>
+      cases hr : curRec d p0 with
+      | none => simp only [Option.bind_some, hr, curDel_none d p0 hr]; exact hnop
+      | some x =>
+        obtain ⟨k, ov⟩ := x
+        intro r hr'
+        simp only [Option.bind_some, hr] at hr' ⊢
+        rw [(curDel_core st d inv p0 hr).1, mem_specDel st inv.2] at hr'
+        exact Or.inl ⟨⟨r, hr'.1, rfl⟩, by simpa using hr'.2⟩
+  | move c q => exact hnop
+
+omit [DecidableEq K] in
+theorem absent_run (st : StrictTotal gt) (k : K) (ms : List (Mut K V)) :
+    ∀ d : Db K V, NodeInv gt d.nodes → (∀ r ∈ flatten d.nodes, r.1 ≠ k) → k ∉ runPut ms →
+      ∀ r ∈ flatten (runMut gt d ms).nodes, r.1 ≠ k := by
+  induction ms with
+  | nil => intro d _ h _; exact h
+  | cons m ms ih =>
+    intro d inv h hp
+    simp only [runPut, List.mem_append, not_or] at hp
+    refine ih (stepMut gt d m) (stepMut_inv st d inv m) ?_ hp.2
+    intro r hr e
+    rcases step_keys st d inv m r hr with ⟨⟨r0, h0, e0⟩, _⟩ | h1
+    · exact h r0 h0 (e0.trans e)
+    · exact hp.1 (e ▸ h1)
+
+omit [DecidableEq K] in
+theorem mutPut_of_mutDel {d : Db K V} {m : Mut K V} {k : K} (h : k ∈ mutDel d m) : mutPut m = [] := by
+  cases m <;> simp_all [mutDel, mutPut]
+
+/-- a key the history removed and did not put again is not in the store at the end -/
+theorem run_dead (st : StrictTotal gt) (ms : List (Mut K V)) :
+    ∀ d : Db K V, NodeInv gt d.nodes → ∀ k ∈ runDead gt d ms, ∀ r ∈ flatten (runMut gt d ms).nodes, r.1 ≠ k := by
+  induction ms with
+  | nil => intro d _ k hk; simp [runDead] at hk
+  | cons m ms ih =>
+    intro d inv k hk
+    simp only [runDead, List.mem_append, List.mem_filter] at hk
+    rcases hk with ⟨h1, h2⟩ | h
+    · have h2 : k ∉ runPut ms := by simpa [notIn] using h2
+      refine absent_run st k ms (stepMut gt d m) (stepMut_inv st d inv m) ?_ h2
+      intro r hr e
+      rcases step_keys st d inv m r hr with ⟨_, h3⟩ | h3
+      · exact h3 (e ▸ h1)
+      · rw [mutPut_of_mutDel h1] at h3; simp at h3
+    · exact ih (stepMut gt d m) (stepMut_inv st d inv m) k h
+
+end Hist
+
 end
 end IwModel.Kv
